@@ -6,6 +6,14 @@ cd /verif
 cp /repo/go.sum /verif/go.sum 2>/dev/null || true
 exec 9>/verif/.work/build.lock
 flock 9
+if [ "${1:-}" = "race" ]; then
+  if ! go build -race -o bin/vcheck-race ./cmd/vcheck 2>/verif/.work/build.err; then
+    echo "BUILD-FAILED: /repo (or /verif) does not compile (-race)" >&2
+    head -50 /verif/.work/build.err >&2
+    exit 2
+  fi
+  exit 0
+fi
 if ! go build -o bin/vcheck ./cmd/vcheck 2>/verif/.work/build.err; then
   echo "BUILD-FAILED: /repo (or /verif) does not compile" >&2
   head -50 /verif/.work/build.err >&2
